@@ -156,7 +156,12 @@ func TestVerifC19Provider(t *testing.T) {
 				for _, f := range fw {
 					legit = append(legit, f.Accept...)
 				}
-				if n := c19.Occurrences([]byte(all), fw[i].Protected, legit); n > 0 {
+				needle, scan := c19.ScanNeedle(tk, fw[i].Protected)
+				if !scan {
+					labels = append(labels, "scan-skipped(short-secret)")
+					continue
+				}
+				if n := c19.Occurrences([]byte(all), needle, legit); n > 0 {
 					msg := fmt.Sprintf("provider(tokens %q, remote %q) = %q discloses the secret of token %d (%q)", raws, remote, out, i, fw[i].Protected)
 					if c19KnownUnsalted(tk, msg) {
 						known = true
@@ -472,7 +477,12 @@ func TestVerifC19Conn(t *testing.T) {
 					if fw[i].Protected == "" {
 						continue
 					}
-					n := c19.Occurrences(c.Raw, fw[i].Protected, legit)
+					needle, scan := c19.ScanNeedle(tk, fw[i].Protected)
+					if !scan {
+						labels = append(labels, "scan-skipped(short-secret)")
+						continue
+					}
+					n := c19.Occurrences(c.Raw, needle, legit)
 					if n == 0 {
 						continue
 					}
@@ -489,7 +499,7 @@ func TestVerifC19Conn(t *testing.T) {
 					base := -1
 					for _, cc := range ctlCaps[ri] {
 						if cc.Method == c.Method && strings.SplitN(cc.Target, "?", 2)[0] == strings.SplitN(c.Target, "?", 2)[0] {
-							base = c19.Occurrences(cc.Raw, fw[i].Protected, ctlLegit)
+							base = c19.Occurrences(cc.Raw, needle, ctlLegit)
 						}
 					}
 					if base >= n {
